@@ -282,7 +282,7 @@ def run(res, tier, seed):
         na += out["n_agree"]
         nskip += out["n_skip"]
     large = [{"type": tc, "L": L, "P": P, "rpc": rpc} for tc, L, P in (("IU2", 640, 1000), ("C*8", 320, 600)) for rpc in (None, 64, 1000)]
-    large += [{"type": tc, "L": L, "P": P, "rpc": rpc} for tc, L, P in (("IU2", 2500, 8), ("C*8", 2100, 3)) for rpc in (None, 100, 1000, 2048)]
+    large += [{"type": tc, "L": L, "P": P, "rpc": rpc} for tc, L, P in (("IU2", 2500, 8), ("C*8", 2100, 3)) for rpc in (None, 2, 7, 100, 1000, 2048)]
     # SPECAN-style images with a burst layout that is consistent with the line count: the groups are still those of rpc
     large += [{"type": tc, "L": nb * lb, "P": 3, "rpc": rpc, "bursts": [nb, lb]} for tc in ("C*8", "IU2") for nb, lb in ((3, 4), (4, 3), (5, 8)) for rpc in (5, 6, 7, 1024)]
     # ~100 MB: selections beyond 64 MiB, requests of 5 / 8 / 80 MB
